@@ -489,6 +489,34 @@ pub fn run(ctx: &Ctx) -> i32 {
     total.merge(r);
     // (B) sources
     let mut sources: Vec<(Vec<u8>, &'static str)> = position_sources().into_iter().map(|s| (s, "position-class source")).collect();
+    // a single character where no token can start, alone and after / before other text: every
+    // scalar value below U+3000, every 61st beyond (all of them thorough), and the format /
+    // zero-width / combining characters (a span may have no display width at all)
+    {
+        let mut chars: Vec<char> = Vec::new();
+        let step = if ctx.quick() { 61 } else { 1 };
+        let mut cp = 0u32;
+        while cp <= 0x10FFFF {
+            if let Some(c) = char::from_u32(cp) {
+                chars.push(c);
+            }
+            cp += if cp < 0x3000 { 1 } else { step };
+        }
+        for c in ['\u{feff}', '\u{200b}', '\u{200c}', '\u{200d}', '\u{200e}', '\u{2060}', '\u{ad}', '\u{301}', '\u{fe0f}', '\u{1160}', '\u{e0001}', '\u{e0100}', '\u{1f3fb}', '\u{20e3}', '\u{fff9}', '\u{61c}', '\u{180e}', '\u{d7b0}', '\u{3000}', '\u{ff01}', '\u{10ffff}'] {
+            chars.push(c);
+        }
+        for c in chars {
+            if c.is_ascii() {
+                continue;
+            }
+            sources.push((c.to_string().into_bytes(), "single character"));
+            if (c as u32) < 0x3000 || !ctx.quick() || matches!(c as u32, 0xfeff | 0xfe0f | 0x1160 | 0xe0001 | 0xe0100 | 0x1f3fb | 0xfff9 | 0xd7b0) {
+                sources.push((format!("1 + {c}").into_bytes(), "single character"));
+                sources.push((format!("{c}{c} x\n").into_bytes(), "single character"));
+                sources.push((format!("local a = 1;\n\ta{c}").into_bytes(), "single character"));
+            }
+        }
+    }
     {
         let mut g = corpus::Gen::new(corpus::FULL);
         for n in 1..=(if ctx.quick() { 3 } else { 4 }) {
